@@ -1071,6 +1071,17 @@ Section Tables.
     | Some _ => cfg_update sec [(key, v)] c
     end.
 
+  (* cfg[sec] = items (repaired): the section is REPLACED by a dictionary
+     filled by update, i.e. every entry is verified and converted *)
+  Definition cfg_setsection (sec : str) (items : list (str * value))
+             (c : config) : coutcome :=
+    let ls := lower sec in
+    match update ls items [] with
+    | Done d' ws => CDone (cset c ls d') ws
+    | Exc e => CExc e
+    | OUnmod => CUnmod
+    end.
+
   (* load_from_file + Configuration.update for a whole file: [cur] is the
      section of the last header; an entry before any header is an error
      (the variable `sec` is unbound) *)
@@ -1350,13 +1361,44 @@ Section Tables.
     | CUnmod => [99]
     end.
 
+  (* how 0: update/constructor; 1: one item assignment on the empty
+     configuration; 2: update with all but the last entry, then item
+     assignment of the last one (non-empty section); 3: update with the
+     first entry, then cfg[sec] = {the others} *)
   Definition cfg_case (c : Z * str * list (str * value)) : list Z :=
     let '(how, sec, its) := c in
     if how =? 0 then enc_coutcome sec (cfg_update sec its [])
-    else match its with
-         | [(k, v)] => enc_coutcome sec (cfg_item sec k v [])
-         | _ => [98]
-         end.
+    else if how =? 1 then
+      match its with
+      | [(k, v)] => enc_coutcome sec (cfg_item sec k v [])
+      | _ => [98]
+      end
+    else if how =? 2 then
+      match rev its with
+      | (k, v) :: r =>
+          match cfg_update sec (rev r) [] with
+          | CDone c1 ws1 =>
+              match cfg_item sec k v c1 with
+              | CDone c2 ws2 => enc_coutcome sec (CDone c2 (ws1 ++ ws2))
+              | o => enc_coutcome sec o
+              end
+          | o => enc_coutcome sec o
+          end
+      | [] => [98]
+      end
+    else
+      match its with
+      | first :: others =>
+          match cfg_update sec [first] [] with
+          | CDone c1 ws1 =>
+              match cfg_setsection sec others c1 with
+              | CDone c2 ws2 => enc_coutcome sec (CDone c2 (ws1 ++ ws2))
+              | o => enc_coutcome sec o
+              end
+          | o => enc_coutcome sec o
+          end
+      | [] => [98]
+      end.
 
   (* a whole configuration file, observed through section sec *)
   Definition file_case (c : str * list str) : list Z :=
